@@ -25,24 +25,33 @@ def floors(tier):
     k = 1 if tier == "quick" else 8
     return {"libraries": 30 * k, "metadata_rpc_entries": 700 * k, "methods_resolved": 700 * k, "fixup_rows": 300 * k, "internal_mode": 8 * k,
             "out_of_order_rows": 20 * k, "keyword_rpcs": 20 * k,
-            "shared_rpc_name_public_in_one_service_internal_in_other": 2 * k, "services_without_rpcs": 2 * k}
+            "shared_rpc_name_public_in_one_service_internal_in_other": 2 * k, "services_without_rpcs": 2 * k, "apis_with_required_plus_second_behavior": 4 * k, "sub_package_cases": 3 if tier == "quick" else 12}
 
 
 def plan(seed, tier):
     n = 36 if tier == "quick" else 300
-    return [{"id": f"meta-{seed}-{i}", "seed": seed * 100003 + i, "transport": TRANSPORTS[i % 3], "internal": i % 4 == 3} for i in range(n)]
+    cases = [{"id": f"meta-{seed}-{i}", "seed": seed * 100003 + i, "transport": TRANSPORTS[i % 3], "internal": i % 4 == 3} for i in range(n)]
+    # services in sibling proto sub-packages
+    cases += [{"id": f"meta-sub-{seed}-{i}", "seed": seed * 100003 + 6000 + i, "transport": TRANSPORTS[i % 3], "internal": False, "subpkg": True}
+              for i in range(3 if tier == "quick" else 15)]
+    return cases
 
 
 def build_api(case):
     rng = random.Random(case["seed"])
-    idle = {"idle_service": True} if case["seed"] % 5 == 1 and not case["internal"] else None
+    if case.get("subpkg"):
+        api = apigen.prefix_packages_api(rng, "k%d" % (case["seed"] % 100000), layout="prefix3", services=True)
+        api.options = [f"transport={case['transport']}", "metadata", "autogen-snippets=false"]
+        return api, rng
+    idle = {"idle_service": True} if case["seed"] % 5 == 1 and not case["internal"] else {}
+    idle = {**idle, "multi_behavior": case["seed"] % 3 == 0}
     api = apigen.wellformed(rng, "k%d" % (case["seed"] % 100000), extra_feat=idle)
     if case["internal"] and (case["seed"] // 4) % 2 == 0:
         # every other internal-mode case has an RPC name shared by two services
         for _ in range(12):
             if "same-rpc-name-two-services" in api.tags:
                 break
-            api = apigen.wellformed(rng, "k%d" % (case["seed"] % 100000))
+            api = apigen.wellformed(rng, "k%d" % (case["seed"] % 100000), extra_feat=idle)
     api.options = [f"transport={case['transport']}", "metadata", "autogen-snippets=false"]
     return api, rng
 
@@ -75,6 +84,8 @@ def run_case(case):
     model = rdm.Model(req)
     files = {f.name: f.content for f in g.response.file}
     viol, counters = [], {"libraries": 1}
+    counters["apis_with_required_plus_second_behavior"] = int("required-with-second-behavior-after-optional" in api.tags)
+    counters["sub_package_cases"] = int(bool(case.get("subpkg")))
     counters["services_without_rpcs"] = sum(1 for p_ in req.proto_file if p_.name in req.file_to_generate for s_ in p_.service if not s_.method)
     mech = {"transport": case["transport"], "internal": case["internal"]}
 
@@ -175,7 +186,8 @@ def run_case(case):
             if not ok:
                 bad("fixup-row", {"method": key, "table": list(table[key]), "expected": wants[0]},
                     numbers_out_of_order=any([f.number for f in model.desc(m.input_type).fields] != sorted(f.number for f in model.desc(m.input_type).fields) for m in ms))
-    script = {"root_pkg": root, "probes": probes}
+    subs = sorted({p_.package[len(api.info["pkg"]):].strip(".") for p_ in req.proto_file if p_.name in req.file_to_generate} - {""})
+    script = {"root_pkg": root, "probes": probes, "subs": subs}
     ev, rc, err = pipeline.run_runner("checks.c15", script, lib, timeout=200)
     if ev is None or "runner_crash" in ev or "library_import_error" in ev:
         return pipeline.runner_failed_result(ev, rc, err, api)
@@ -199,9 +211,11 @@ def in_runner(script):
     import importlib
     import inspect
     root = importlib.import_module(script["root_pkg"])
+    mods = [root] + [importlib.import_module(script["root_pkg"] + "." + sub) for sub in script.get("subs") or []]
     out = []
     for pr in script["probes"]:
-        cls = getattr(root, pr["client"] or "", None)
+        # a service of a proto sub-package is exported by that sub-package's module
+        cls = next((getattr(m_, pr["client"] or "", None) for m_ in mods if isinstance(getattr(m_, pr["client"] or "", None), type)), None)
         r = {"class_ok": isinstance(cls, type), "missing": [], "is_coroutine": None}
         if r["class_ok"]:
             for m in pr["methods"]:
